@@ -92,6 +92,37 @@ def export_one(spec, kind, mons, parse=True):
     return res
 
 
+def export_again(res, kind, mons, parse=True):
+    """Exports res["timeline"] once more; returns a result dict shaped like export_one's (same spec, new document/records)."""
+    out = dict(res, exc=None, doc=None, picture=None, parse_error=None)
+    tl = res["timeline"]
+    try:
+        if mons.layout:
+            mons.layout.drain()
+        out["doc"] = tl.export()
+        sc = tl.options["scale"]
+        out["domain"] = list(sc.domain())
+        out["range"] = list(sc.range())
+        if mons.layout:
+            recs = mons.layout.drain()
+            if recs:
+                out["compute_record"] = recs[-1]
+                out["labels"] = recs[-1]["labels"]
+                out["engine_options"] = recs[-1]["options"]
+                out["n_layers"] = len([L for L in recs[-1]["layers"] if L["items"]])
+                out["moved"] = any(it["pos"] != it["t"] for L in recs[-1]["layers"] if L["items"] for it in L["items"])
+    except RecursionError as e:
+        out["exc"] = ("RecursionError", str(e)[:100], _repo_frames(e))
+    except Exception as e:
+        out["exc"] = (type(e).__name__, str(e)[:300], _repo_frames(e))
+    if out["doc"] is not None and parse:
+        try:
+            out["picture"] = PIC.parse_svg(out["doc"]) if kind == "svg" else PIC.parse_tikz(out["doc"])
+        except PIC.Unparseable as e:
+            out["parse_error"] = str(e)
+    return out
+
+
 def _repo_frames(e):
     out = []
     for fs in traceback.extract_tb(e.__traceback__):
